@@ -40,6 +40,9 @@ type Config struct {
 	PCTDepth   int    `json:"pct_depth,omitempty"`
 	TimeEvery  int    `json:"time_every,omitempty"` // 1 in N steps lets simulated time pass (0 = only when idle)
 	MaxSteps   int    `json:"max_steps,omitempty"`
+	// UnlockYield: after releasing a lock a task is descheduled with probability 1/UnlockYield (0 = never): the
+	// window between "looked at shared state under the lock" and "acts on what it saw" opens at the unlock
+	UnlockYield int `json:"unlock_yield,omitempty"`
 }
 
 type task struct {
@@ -76,24 +79,25 @@ type Sched struct {
 	live    int // unfinished client tasks
 	tasks   int // unfinished tasks of any kind
 
-	Log         []string
-	Steps       int
-	hash        uint64
-	Points      map[string]int // how often each point label was scheduled
-	LockWaits   int
-	SelMulti    int // selects resolved with >= 2 cases polled
-	UnknownY    int
-	TimeSteps   int
-	last        string
-	burstLeft   int
-	pctChange   map[int]bool
-	hooks       []func(*StepInfo)
-	start       time.Time
-	draining    bool
-	drainWaits  atomic.Int64
-	panics      []string
-	WriterPendR int            // RWMutex reader arrived while a writer was pending
-	own         map[string]int // scheduling steps taken by each task (its own progress, independent of fairness)
+	Log          []string
+	Steps        int
+	hash         uint64
+	Points       map[string]int // how often each point label was scheduled
+	LockWaits    int
+	UnlockYields int
+	SelMulti     int // selects resolved with >= 2 cases polled
+	UnknownY     int
+	TimeSteps    int
+	last         string
+	burstLeft    int
+	pctChange    map[int]bool
+	hooks        []func(*StepInfo)
+	start        time.Time
+	draining     bool
+	drainWaits   atomic.Int64
+	panics       []string
+	WriterPendR  int            // RWMutex reader arrived while a writer was pending
+	own          map[string]int // scheduling steps taken by each task (its own progress, independent of fairness)
 }
 
 // New creates a scheduler and installs the simhook functions. Must be called inside a synctest bubble.
@@ -203,6 +207,14 @@ func (s *Sched) unlocked(m any) {
 		}
 	}
 	s.mu.Unlock()
+	if s.cfg.UnlockYield > 0 && !s.draining {
+		if t := s.me(); t != nil && s.tape.Intn(s.cfg.UnlockYield) == 1 { // a zero tape value never yields here
+			s.mu.Lock()
+			s.UnlockYields++
+			s.mu.Unlock()
+			s.park(t, "unlock:", nil)
+		}
+	}
 }
 
 // Progress counts scheduling steps of all runs of the process; the wall-clock watchdog uses it to tell a task that
